@@ -40,7 +40,7 @@ import (
 	"verifharness/hx"
 )
 
-var recoverMode, strictRecover bool
+var recoverMode, strictRecover, netFail bool
 
 var (
 	logger     = zap.NewNop()
@@ -163,9 +163,15 @@ func (w *world) abs(m *specqbft.SignedMessage, depth int) string {
 
 // ---- recording network / timer ----------------------------------------------------------------------
 
-type recNet struct{ msgs []*specqbft.SignedMessage }
+type recNet struct {
+	msgs []*specqbft.SignedMessage
+	fail bool // the next publishes fail (network down)
+}
 
 func (r *recNet) Broadcast(m *spectypes.SSVMessage) error {
+	if r.fail {
+		return fmt.Errorf("injected publish failure")
+	}
 	sm := &specqbft.SignedMessage{}
 	if err := sm.Decode(m.Data); err != nil {
 		panic(err)
@@ -582,10 +588,24 @@ func (nd *node) timeout() []*specqbft.SignedMessage {
 		if r < uint64(s.Round) && !s.Decided {
 			nd.violf("c07", "the round timer of operator %d is armed for round %d although the instance is in round %d: its timeout is discarded as old", nd.id, r, uint64(s.Round))
 		}
+		// -netfail: every third timeout of an operator finds the network down (the publish of the round change
+		// fails); the timeout must move the operator on and re-arm the timer all the same
+		down := netFail && nd.nops%3 == 0
+		nd.net.fail = down
 		err := nd.ctrl.OnTimeout(logger, *ev)
+		nd.net.fail = false
 		nd.lines = append(nd.lines, fmt.Sprintf("OBS timeout %d", b2i(err == nil)))
 		out := nd.obsOuts(false)
 		nd.obsState()
+		if down {
+			if could {
+				if s2 := nd.state(); uint64(s2.Round) != r+1 || s2.ProposalAcceptedForCurrentRound != nil || nd.armed != r+1 {
+					nd.violf("c07", "the timeout of round %d found the network down (%v): the operator is in round %d with the timer armed for round %d, accepted proposal cleared: %v - it must be in round %d with the timer re-armed",
+						r, err, uint64(s2.Round), nd.armed, s2.ProposalAcceptedForCurrentRound == nil, r+1)
+				}
+			}
+			return out
+		}
 		nd.checkTimeout(could, r, err, out)
 		return out
 	}
@@ -1131,8 +1151,8 @@ func oneRun(out *hx.Out, w *world, seed, c uint64, level string, nbyz int, mutAn
 		out.Count(fmt.Sprintf("runs-decided-%d-of-%d", decs, len(s.honest)))
 		for _, id := range s.honest {
 			nd := s.nodes[id]
-			out.Case("net seed=%d run=%d size=%d level=%s nbyz=%d mut=%d steps=%d recover=%d strict=%d byz=%v node=%d height=%d maxround=%d decided=%d",
-				seed, c, size, level, nbyz, b2i(mutAny), steps, b2i(recoverMode), b2i(strictRecover), keys(s.byz), id, uint64(s.height), maxRound, decs)
+			out.Case("net seed=%d run=%d size=%d level=%s nbyz=%d mut=%d steps=%d recover=%d strict=%d netfail=%d byz=%v node=%d height=%d maxround=%d decided=%d",
+				seed, c, size, level, nbyz, b2i(mutAny), steps, b2i(recoverMode), b2i(strictRecover), b2i(netFail), keys(s.byz), id, uint64(s.height), maxRound, decs)
 			for _, l := range nd.lines {
 				writeLine(out, l)
 			}
@@ -1633,6 +1653,7 @@ func main() {
 	shard := fs.Int("shard", 0, "exh: this shard")
 	shards := fs.Int("of", 1, "exh: number of shards")
 	fs.BoolVar(&strictRecover, "strict", false, "count a failing timely continuation as a c07 violation (used only when searching for a failing input after a correspondence break)")
+	fs.BoolVar(&netFail, "netfail", false, "every third timeout of an operator finds the network down (monitor-only runs: the model has no publish failures)")
 	fs.BoolVar(&recoverMode, "recover", false, "after the adversarial prefix run the timely continuation (C07 exploration)")
 	_ = fs.Parse(os.Args[2:])
 	out := hx.NewOut()
